@@ -374,7 +374,7 @@ def token_shadowing(ctx, rep, lx, autom):
     """C02.8: sly joins the token patterns into one alternation in definition order, and Python's alternation takes the
     first alternative that matches *some* prefix.  A string of a later token whose prefix is matched by an earlier
     rule can therefore never be lexed as that later token."""
-    rep.rule("C02.8", "no token's language is shadowed by an earlier lexer rule (the earlier rule would match a prefix and win)", floor=10)
+    rep.rule("C02.8", "no token's language is shadowed by an earlier lexer rule (the earlier rule would match a prefix and win)", floor=8)
     lcons = "parser.slyparse:" + lx.cls.name
     order = list(lx.rules)
     for i, r in enumerate(order):
